@@ -626,6 +626,8 @@ def r_trunc_int(a):
 
 
 def r_to_float(a):
+    if type(a).__name__ == "FPV":
+        return a
     if is_sym(a):
         if a.sort() == z3.RealSort():
             return a
